@@ -230,9 +230,10 @@ Qed.
 
 Lemma read_check_sound s st s' o :
   xwf s -> label_ok s (s8_op st) = true -> xstep s (s8_op st) = (s', o) -> o = s8_obs st ->
-  read_check_ok (floor s) st = true.
+  read_check_ok (c_cur (x_c s)) (floor s) st = true.
 Proof.
-  intros (Hwc & _ & _) Hl E Ho. unfold read_check_ok. rewrite <- Ho. destruct (s8_op st) as [| | | | | | | | | | |i rev|i rev|i rev]; try reflexivity.
+  intros (Hwc & _ & _) Hl E Ho. unfold read_check_ok. rewrite <- Ho. destruct (s8_op st) as [| | | | | | | | |frev| | |i rev|i rev|i rev]; try reflexivity.
+  - cbn [xstep cstep] in E. injection E as <- <-. destruct (eff_rev (c_cur (x_c s)) frev <? floor s); reflexivity.
   - cbn [label_ok xstep] in *. destruct (find_thr i (x_thr s)) as [[| | | |r|r]|]; try discriminate.
     apply N.eqb_eq in Hl. subst r. rewrite (race_read_floor _ rev Hwc) in E. fold (floor s) in E.
     destruct (rev <? floor s); injection E as <- <-; reflexivity.
@@ -323,4 +324,114 @@ Lemma read_scan_refuses s i rev s' res :
 Proof.
   intros (Hwc & _ & _) Ef E Hlt. cbn [xstep] in E. rewrite Ef, (race_read_floor _ rev Hwc) in E. fold (floor s) in E.
   apply N.ltb_lt in Hlt. rewrite Hlt in E. injection E as _ <-. reflexivity.
+Qed.
+
+(* ---------- the point read of the compaction record fails ---------- *)
+
+(* a range read that cannot read the compaction record is refused whatever the record says: an engine failure is never
+   taken for "nothing compacted yet" *)
+Lemma fault_read_refused s rev : cstep s (CFaultRead rev) = (s, ORead RErr).
+Proof. reflexivity. Qed.
+
+Lemma fault_read_refused_x s rev : xstep s (CFaultRead rev) = (s, ORead RErr).
+Proof. destruct s. reflexivity. Qed.
+
+(* ---------- validity, decided ---------- *)
+
+Lemma two64_lit : two64 = 18446744073709551616.
+Proof. reflexivity. Qed.
+
+Lemma c08_validb_spec c : c08_validb c = true -> c08_valid c.
+Proof.
+  unfold c08_validb, c08_valid. rewrite two64_lit. intros H. apply andb_true_iff in H as [H1 H2]. split; [apply N.ltb_lt; exact H1|].
+  apply Forall_forall. intros st Hst. rewrite forallb_forall in H2. apply N.ltb_lt. apply H2. exact Hst.
+Qed.
+
+Theorem c08_oracle_sound_v c : c08_check_v c = true -> c08_oracle c = None.
+Proof.
+  unfold c08_check_v. intros H. apply andb_true_iff in H as [Hv Hc]. apply c08_oracle_sound; [apply c08_validb_spec; exact Hv|exact Hc].
+Qed.
+
+(* ---------- whole histories in the concurrent label system ---------- *)
+
+Lemma xstep_seq s op : is_seq op -> xstep s op = (let '(c', o) := cstep (x_c s) op in (mkX c' (x_thr s), o)).
+Proof. intros H. destruct op; try reflexivity; destruct H. Qed.
+
+(* C08_refused_after_accept for overlapping compactions: once a compaction thread has ended without error at revision h,
+   after ANY interleaving of engine calls of other threads, writes and reads, every range read whose revision is below h
+   is refused *)
+Theorem refused_after_accept_x s i ph s' h ops op rr :
+  xwf s -> xstep s (CThread i ph) = (s', OCompact h COk) -> c_cur (x_c (xrun s' ops)) < two64 ->
+  read_rev (c_cur (x_c (xrun s' ops))) op = Some rr -> rr < h ->
+  snd (xstep (xrun s' ops) op) = ORead RErr.
+Proof.
+  intros Hw E Hb Hr Hlt.
+  assert (Es : s' = fst (xstep s (CThread i ph))) by (rewrite E; reflexivity).
+  pose proof (xrun_cur_mono ops s') as Hm.
+  destruct (xstep_spec s (CThread i ph) Hw) as (Hw' & _); [rewrite <- Es; lia|]. rewrite <- Es in Hw'.
+  pose proof (thread_accept s i ph s' h Hw E) as Hacc.
+  destruct (floor_monotone_x ops s' Hw' Hb) as (Hwf & Hfl).
+  set (sf := xrun s' ops) in *.
+  assert (Hseq : is_seq op) by (destruct op; cbn [read_rev] in Hr; try discriminate; exact I).
+  rewrite (xstep_seq sf op Hseq).
+  rewrite (below_refused (x_c sf) op rr); [reflexivity|apply Hwf|exact Hr|]. unfold floor in *. lia.
+Qed.
+
+(* ... and so is a range read in two steps, at whichever step it looks at the record *)
+Theorem refused_after_accept_read s i ph s' h ops j rev :
+  xwf s -> xstep s (CThread i ph) = (s', OCompact h COk) -> c_cur (x_c (xrun s' ops)) < two64 -> rev < h ->
+  (find_thr j (x_thr (xrun s' ops)) = Some (TReadGet rev) -> snd (xstep (xrun s' ops) (CReadCheck j rev)) = ORead RErr) /\
+  (find_thr j (x_thr (xrun s' ops)) = Some (TReadScan rev) -> snd (xstep (xrun s' ops) (CReadScan j rev)) = ORead RErr).
+Proof.
+  intros Hw E Hb Hlt.
+  assert (Es : s' = fst (xstep s (CThread i ph))) by (rewrite E; reflexivity).
+  pose proof (xrun_cur_mono ops s') as Hm.
+  destruct (xstep_spec s (CThread i ph) Hw) as (Hw' & _); [rewrite <- Es; lia|]. rewrite <- Es in Hw'.
+  pose proof (thread_accept s i ph s' h Hw E) as Hacc.
+  destruct (floor_monotone_x ops s' Hw' Hb) as (Hwf & Hfl).
+  set (sf := xrun s' ops) in *.
+  assert (Hf : rev < floor sf) by lia.
+  split; intros Ef.
+  - apply read_check_refuses; assumption.
+  - destruct (xstep sf (CReadScan j rev)) as [s2 o] eqn:E2. cbn [snd].
+    pose proof E2 as E3. cbn [xstep] in E3. rewrite Ef in E3. injection E3 as _ <-.
+    destruct Hwf as (Hwc & _). rewrite (race_read_floor _ rev Hwc). fold (floor sf). apply N.ltb_lt in Hf. rewrite Hf. reflexivity.
+Qed.
+
+(* the revision of a compaction thread is the clamp computed when it was spawned, and stays that *)
+Lemma find_thr_snoc i t l : find_thr i (drop_thr i l ++ [(i, t)]) = Some t.
+Proof.
+  unfold find_thr, drop_thr. induction l as [|[j u] l IH]; cbn [filter app find fst].
+  - rewrite N.eqb_refl. reflexivity.
+  - destruct (j =? i) eqn:E; cbn [negb]; [exact IH|]. cbn [app find fst]. rewrite E. exact IH.
+Qed.
+
+Lemma spawn_rev s i r n :
+  find_thr i (x_thr (fst (xstep s (CSpawn i r n)))) = Some (TSetGet (clamp (c_cur (x_c s)) (c_retry (x_c s)) r) n).
+Proof. cbn [xstep fst x_thr]. apply find_thr_snoc. Qed.
+
+Lemma after_set_rev rv n : match after_set rv n with TGo t' => trev t' = rv | TEnd _ => True end.
+Proof. destruct n; cbn; auto. Qed.
+Lemma after_range_rev rv k : match after_range rv k with TGo t' => trev t' = rv | TEnd _ => True end.
+Proof. destruct k as [|[|k]]; cbn; auto. Qed.
+
+Lemma tstep_trev rec t : match snd (tstep rec t) with TGo t' => trev t' = trev t | TEnd _ => True end.
+Proof.
+  destruct t as [rv n|val rv n|rv k a|val rv k a|rd|rd]; cbn [tstep trev].
+  - destruct rec as [[|x v]|]; cbn [snd trev]; try reflexivity.
+    destruct (u64_of (x :: v)); cbn [snd]; [|exact I]. destruct (rv <? n0); cbn [snd trev]; [apply after_set_rev|reflexivity].
+  - match goal with |- context [if ?c then _ else _] => destruct c end; cbn [snd]; [apply after_set_rev|exact I].
+  - destruct rec as [v|]; cbn [snd trev]; [|reflexivity].
+    match goal with |- context [if ?c then _ else _] => destruct c end; cbn [snd trev]; [apply after_range_rev|reflexivity].
+  - match goal with |- context [if ?c then _ else _] => destruct c end; cbn [snd]; [apply after_range_rev|].
+    destruct (Nat.leb race_attempts a); cbn [snd trev]; [apply after_range_rev|reflexivity].
+  - reflexivity.
+  - reflexivity.
+Qed.
+
+Lemma thread_end_rev s i ph s' h res :
+  xstep s (CThread i ph) = (s', OCompact h res) -> exists t, find_thr i (x_thr s) = Some t /\ h = trev t.
+Proof.
+  cbn [xstep]. destruct (find_thr i (x_thr s)) as [t|]; [|discriminate].
+  destruct (tstep (c_rec (x_c s)) t) as [rec' [t'|r]]; [discriminate|]. intros E. injection E as _ <- _. exists t. auto.
 Qed.
